@@ -80,7 +80,8 @@ def main():
             place()
             shutil.copytree(src, os.path.join(wt, "SEED"), dirs_exist_ok=True)   # demo commands may refer to SEED/...
             cmd = meta.get("demo_cmd", "")
-            cmd = cmd.replace("/tmp/seed/%s" % pid, wt)
+            cmd = cmd.replace("/tmp/seed/%s" % pid, wt).replace("/tmp/seed2/%s" % pid, wt)
+            cmd = re.sub(r'cd <[^>]*>\s*&&\s*', '', cmd)
             rc0, o0 = sh(cmd, wt, timeout=3000)
             demo_res["without_change"] = {"rc": rc0, "tail": o0[-600:]}
             sh(["git", "apply", patch], wt)
@@ -119,7 +120,22 @@ def main():
                 shutil.copytree(s, os.path.join(dst, f), dirs_exist_ok=True)
             elif f != "meta.json":
                 shutil.copy(s, dst)
-        meta_out = {"breaks_property": pid, "seeded_by": "fresh sub-agent given only the property text and a scratch worktree",
+        history = []
+        oldp = os.path.join(dst, "meta.json")
+        if os.path.exists(oldp):
+            try:
+                old = json.load(open(oldp))
+                history = old.get("history", [])
+                oc = old.get("confirmed_by_lead", {}).get("check")
+                if oc and not a.skip_check:
+                    history.append({"ran_at": old["confirmed_by_lead"].get("ran_at"), "rc": oc.get("rc"),
+                                    "detected": oc.get("detected"), "infra": oc.get("infra"),
+                                    "what": "exit %s" % oc.get("rc")})
+                if a.skip_check and old.get("confirmed_by_lead", {}).get("check"):
+                    report["check"] = old["confirmed_by_lead"]["check"]
+            except Exception:
+                pass
+        meta_out = {"breaks_property": pid, "history": history, "seeded_by": "fresh sub-agent given only the property text and a scratch worktree",
                     "summary": meta.get("summary"), "why_it_breaks": meta.get("why_it_breaks"),
                     "needs_to_manifest": meta.get("needs_to_manifest"), "files_changed": files,
                     "demo_dest": meta.get("demo_dest"), "demo_cmd": meta.get("demo_cmd"),
